@@ -234,8 +234,18 @@ def sim_state(s, st):
 
 
 # ===================================================================== implementation side
-def corner(root, xs):
-    """corner values as the root asks for them: floats (default), Python ints, or an int64 array"""
+def corner(root, xs, keep=None):
+    """corner values as the root asks for them: floats (default; as a caller-owned array when the arrays
+    are tracked), Python ints, or an int64 array"""
+    v = _corner(root, xs)
+    if keep is not None and not root.get("int"):
+        v = np.array(v, dtype=float)
+    if keep is not None and isinstance(v, np.ndarray):
+        keep.append((v, v.copy()))
+    return v
+
+
+def _corner(root, xs):
     if not root.get("int"):
         return [float(F(x)) for x in xs]
     v = [int(F(x)) for x in xs]
@@ -245,15 +255,20 @@ def corner(root, xs):
     return tuple(v) if root["int"] == "tuple" else v
 
 
-def build(root):
-    region = df.Region(p1=corner(root, root["p1"]), p2=corner(root, root["p2"]),
+def build(root, keep=None):
+    """keep: list collecting (array handed to a constructor, pristine copy) - the caller's arrays"""
+    region = df.Region(p1=corner(root, root["p1"], keep), p2=corner(root, root["p2"], keep),
                        dims=root["dims"], units=root["units"], tolerance_factor=DEFAULT_TF)
     if root["type"] == "region":
         return region
-    subs = {name: df.Region(p1=corner(root, a), p2=corner(root, b),
+    subs = {name: df.Region(p1=corner(root, a, keep), p2=corner(root, b, keep),
                             dims=root["dims"], units=root["units"])
             for name, (a, b) in root.get("subs", [])}
-    mesh = df.Mesh(region=region, n=root["n"], bc=root.get("bc", ""), subregions=subs)
+    n_arg = root["n"]
+    if keep is not None:
+        n_arg = np.array(root["n"], dtype=int)
+        keep.append((n_arg, n_arg.copy()))
+    mesh = df.Mesh(region=region, n=n_arg, bc=root.get("bc", ""), subregions=subs)
     if root["type"] == "mesh":
         return mesh
     n, nv = root["n"], root["nvdim"]
@@ -272,6 +287,32 @@ def clone(obj):
                         dtype=obj.dtype, unit=obj.unit, valid=obj.valid.copy(),
                         vdim_mapping=dict(obj.vdim_mapping))
     return copy.deepcopy(obj)
+
+
+def parts(obj):
+    """mutable state of an object: (arrays, sub-objects)"""
+    k = "region" if isinstance(obj, df.Region) else "mesh" if isinstance(obj, df.Mesh) else "field"
+    if k == "region":
+        return [obj.pmin, obj.pmax], [obj]
+    m = obj.mesh if k == "field" else obj
+    arrs, objs = [m.n, m.region.pmin, m.region.pmax], [m, m.region]
+    for sr in m.subregions.values():
+        arrs += [sr.pmin, sr.pmax]
+        objs.append(sr)
+    if k == "field":
+        arrs += [obj.array, obj.valid]
+        objs.append(obj)
+    return arrs, objs
+
+
+def shares_state(a, b):
+    """does object a share an array buffer or a sub-object with object b?"""
+    aa, ao = parts(a)
+    ba, bo = parts(b)
+    if any(x is y for x in ao for y in bo):
+        return True
+    return any(isinstance(x, np.ndarray) and isinstance(y, np.ndarray) and np.shares_memory(x, y)
+               for x in aa for y in ba)
 
 
 def kind_of(obj):
@@ -460,7 +501,8 @@ def mag(s, st):
 
 def run_history(case):
     root, steps = case["root"], case["steps"]
-    cur = build(root)
+    callers = []
+    cur = build(root, callers)
     typ = root["type"]
     o0 = observe(cur)
     s0 = hstate_coq(cur, o0)
@@ -469,17 +511,29 @@ def run_history(case):
     oracle, trace, coq_steps, sig = [], [], [], []
     rot_seen = False
     nonfinite = False
+    # the constructors must not keep the caller's arrays: scribble on them, the object must not move
+    snap0 = snapshot(cur)
+    for arr, pristine in callers:
+        arr[...] = arr + 7 if arr.dtype.kind in "iu" else arr * 3 + 1
+    if snapshot(cur) != snap0:
+        oracle.append("constructor-aliases-caller-array")
+    for arr, pristine in callers:
+        arr[...] = pristine
+    alive = []        # (object, snapshot, born): every earlier object of the chain stays alive and is re-checked
     for idx, st in enumerate(steps):
         via_mesh = typ == "field" and st["op"] != "rotate"
-        c = clone(cur)
+        real_ip = bool(st["ip"] or via_mesh)
+        # the form that continues the history runs on the chain's own object, the other one on a private clone
+        other = clone(cur)
+        c, oc = (cur, other) if real_ip else (other, cur)
         tgt_c = c.mesh if via_mesh else c
-        tgt_cur = cur.mesh if via_mesh else cur
+        tgt_cur = oc.mesh if via_mesh else oc
+        before_cur = snapshot(oc)
+        st_cp, new = attempt(lambda: call(tgt_cur, st, False))
+        after_cur = snapshot(oc)
         before_c = snapshot(c)
         st_ip, ret = attempt(lambda: call(tgt_c, st, True))
         after_c = snapshot(c)
-        before_cur = snapshot(cur)
-        st_cp, new = attempt(lambda: call(tgt_cur, st, False))
-        after_cur = snapshot(cur)
         here = []
         if after_cur != before_cur:
             here.append("copy-modified-original" if st_cp == "ok" else "rejected-step-modified-object")
@@ -489,6 +543,8 @@ def run_history(case):
             here.append("inplace-returns-other-object")
         if (st_ip == "ok") != (st_cp == "ok"):
             here.append("forms-disagree-on-acceptance")
+        if st_cp == "ok" and shares_state(tgt_cur, new):
+            here.append("copy-shares-state-with-original")
         obs_ip = observe(c) if st_ip == "ok" else None
         if st_cp == "ok":
             obs_cp = observe(c) if (via_mesh and st_ip == "ok") else observe(new)
@@ -562,10 +618,12 @@ def run_history(case):
         if not nonfinite:
             coq_steps.append(f"({g.b(st['ip'])}, {step_coq(st)}, {opt_ostate_coq(obs_ip)}, {opt_ostate_coq(obs_cp)})")
         sig.append((st["op"], st["ip"], st_ip == "ok", st.get("cls", "")))
-        # continue the history with the form the step asks for
-        adv_ok = st_ip == "ok" if (st["ip"] or via_mesh) else st_cp == "ok"
+        # continue the history with the form the step asks for; superseded objects stay alive
+        adv_ok = st_ip == "ok" if real_ip else st_cp == "ok"
         if adv_ok:
-            cur = c if (st["ip"] or via_mesh) else new
+            if not real_ip:
+                alive.append((cur, before_cur, idx))
+                cur = new
             rot_seen = rot_now
             if has_nan(observe(cur)):
                 break
@@ -573,8 +631,19 @@ def run_history(case):
                 sim = exp
             else:
                 sim = sim_from_obs(observe(cur), typ, rmap, root.get("nvdim", 0))
+        # the copying form leaves the original untouched - also by every LATER step on its result
+        for obj, snap, born in alive:
+            if snapshot(obj) != snap:
+                oracle.append("earlier-object-changed-by-later-step")
+                trace[-1]["clauses"] = sorted(set(trace[-1]["clauses"] + ["earlier-object-changed-by-later-step"]))
+                trace[-1]["changed_object_from_step"] = born
+        for x_i, (obj, snap, born) in enumerate(alive):
+            if shares_state(obj, cur):
+                oracle.append("copy-shares-state-with-original")
         if has_nan(observe(cur)):
             break
+    if any(not np.array_equal(arr, pristine) for arr, pristine in callers):
+        oracle.append("caller-array-modified")
     coq = None
     if not nonfinite:
         coq = f"C13Case {s0} {ostate_coq(o0)} {g.lst(coq_steps)}"
@@ -590,7 +659,7 @@ def shrink(case, clauses):
             r = run_history(dict(case, steps=ss))
         except Exception:  # noqa: BLE001
             return False
-        return bool(set(r["oracle"]) & set(clauses))
+        return set(clauses) <= set(r["oracle"])      # keep every violated clause while shrinking
     n = 2
     budget = 60
     while len(steps) >= 2 and budget > 0:
@@ -1056,6 +1125,43 @@ def directed_large_k():
     return cases
 
 
+def directed_chains():
+    """fixed part of every run: a copying step followed by in-place steps on its RESULT (odd quarter turns in
+    planes with different cell counts, scalings, moves); every earlier object of the chain is kept alive
+    and must still equal its snapshot after every later step, and share no array / sub-object with its copy"""
+    sub3 = [["a", [[S(0), S(0), S(0)], [S(2), S(2), S(1)]]], ["b", [[S(2), S(1), S(0)], [S(4), S(2), S(1)]]]]
+    roots = [
+        dict(type="mesh", p1=[S(0), S(0), S(0)], p2=[S(4), S(2), S(1)], dims=["x", "y", "z"],
+             units=["m", "nm", "s"], n=[4, 2, 1], bc="", subs=sub3),
+        dict(type="mesh", p1=[S(0), S(0)], p2=[S(3), S(1)], dims=["a", "b"], units=["m", "s"], n=[3, 2], bc="", subs=[]),
+        dict(type="mesh", p1=[S(0), S(0), S(0)], p2=[S(2), S(3), S(5)], dims=["x", "y", "z"], units=["m"] * 3,
+             n=[2, 3, 5], bc="", subs=[], int="array"),
+        dict(type="region", p1=[S(0), S(0), S(0)], p2=[S(4), S(2), S(1)], dims=["x", "y", "z"],
+             units=["m", "nm", "s"]),
+        dict(_froot("xyz", [4, 2, 1], [4, 2, 1], 3, subs=sub3)),
+        dict(_froot("xy", [3, 2], [3, 2], 1)),
+    ]
+    cases = []
+    for root in roots:
+        d = root["dims"]
+        nd = len(d)
+        mv = lambda ip: dict(op="translate", v=seq([F(1)] * nd), ip=ip, cls="chain")          # noqa: E731
+        sc = lambda ip: dict(op="scale", f=dict(t="scalar", v=S(2), int=True), ref=seq([F(0)] * nd), ip=ip,  # noqa: E731
+                             cls="chain")
+        rot = lambda a, b, k, ip: dict(op="rotate", ax1=d[a], ax2=d[b], k=dict(t="int", v=k, rep=None),  # noqa: E731
+                                       ref=dict(t="none"), ip=ip, cls="chain")
+        planes = [(0, 1)] + ([(0, 2), (1, 2)] if nd >= 3 else [])
+        for a, b in planes:
+            for first in (mv(False), sc(False), rot(a, b, 2, False), rot(b, a, 1, False)):
+                for k in (1, -1, 3):
+                    cases.append(dict(kind="history", root=root, tame=bool(root.get("subs")), directed="chain",
+                                      steps=[first, rot(a, b, k, True), mv(True)]))
+            cases.append(dict(kind="history", root=root, tame=bool(root.get("subs")), directed="chain",
+                              steps=[mv(False), sc(False), rot(a, b, 1, True), sc(True), rot(b, a, 1, False),
+                                     rot(a, b, 3, True)]))
+    return cases
+
+
 def directed_nonfinite():
     """fixed part of every run: NaN / +inf / -inf (Python float, numpy float32 / float64) in every argument
     position of every operation, on a region, a 1-d region, a mesh with subregions and two fields, in both
@@ -1367,7 +1473,7 @@ def directed_integer():
 
 def generate(rng, tier):
     quick = tier == "quick"
-    cases = directed_refusals() + directed_integer() + directed_nonfinite() + directed_large_k()
+    cases = directed_refusals() + directed_integer() + directed_nonfinite() + directed_large_k() + directed_chains()
     # directed single steps: every factor sign x form x reference on a fixed region (exact regime)
     for f in [F(-1), F(-2), F(-1, 2), F(0), F(3)]:
         for ref in [dict(t="none"), seq([F(0), F(0), F(0)]), seq([F(2 ** 20), F(-3 * 2 ** 18), F(5)])]:
